@@ -115,9 +115,11 @@ def holds(f, val):
     return any(holds(x, val) for x in f[1])
 
 
-def equivalent(a, b, max_atoms=12):
+def equivalent(a, b, max_atoms=12, same=None):
     """a, b: lists of (guard string, outcome signature).  Returns (True, None) when for every valuation of the
-    atoms both select the same outcome; (False, witness) otherwise; (None, reason) when undecidable here."""
+    atoms both select the same outcome; (False, witness) otherwise; (None, reason) when undecidable here.
+    `same(confirmed outcome, current outcome, valuation)` may declare two different outcomes equal under a valuation
+    (an algebraic lemma about the factory, stated and justified by the caller)."""
     fa = [(parse(w), o) for w, o in a]
     fb = [(parse(w), o) for w, o in b]
     at = set()
@@ -134,6 +136,8 @@ def equivalent(a, b, max_atoms=12):
             continue
         # paths are mutually exclusive within one version; a valuation selecting several is infeasible there
         if len(sa) > 1 or len(sb) > 1:
+            continue
+        if sa != sb and sa and sb and same is not None and same(sa[0], sb[0], val):
             continue
         if sa != sb:
             return False, {'valuation': {k: v for k, v in val.items()}, 'confirmed': sa[0] if sa else None, 'now': sb[0] if sb else None}
